@@ -1,6 +1,8 @@
 /-
   C17 — what an offline resolution reports: published = false, the short form as equivalent id,
-  and the recovery commitment and anchor origin of the suffix data embedded in the DID.
+  the recovery commitment and anchor origin of the suffix data embedded in the DID, the update
+  commitment of the embedded delta, and a document that is the composer's result for the embedded
+  delta's patches on the empty document (`resolve_is_what_was_created`).
 -/
 import Sidetree.Props.C17
 import Sidetree.Props.C18
@@ -27,6 +29,34 @@ theorem applyCreate_carries (cfg : Protocol) (op : AnchoredOp) (rm rm' : RM) (p 
       · cases h; simp
       · cases h; simp
       · cases h
+
+/-- a create that leaves a non-empty document behind applied its delta: the delta is hash-bound and
+    valid, the document is the composer's result for the delta's patches on the empty document, and
+    the update commitment is the delta's -/
+theorem applyCreate_nonempty (cfg : Protocol) (op : AnchoredOp) (rm rm' : RM) (p : ParsedOp) (kv : String × Json) (rest : List (String × Json))
+    (h : applyCreate H cfg orc op rm p = .ok rm') (hdoc : rm'.doc = some (.obj (kv :: rest))) :
+    Hashing.isValidModelMultihash H (deltaJson p.delta) (p.suffixData.getD default).deltaHash = true ∧
+    Parser.validateDelta cfg orc p.delta = true ∧
+    Composer.applyPatches (.obj []) ((p.delta.bind (·.patches)).getD []) = .ok (.obj (kv :: rest)) ∧
+    rm'.updateCommitment = (p.delta.getD default).updateCommitment := by
+  unfold applyCreate at h
+  simp only at h
+  split at h
+  · cases h; simp [emptyDoc] at hdoc
+  · rename_i h1
+    split at h
+    · cases h; simp [emptyDoc] at hdoc
+    · rename_i h2
+      simp only [patched, emptyDoc] at h
+      cases hc : Composer.applyPatches (.obj []) ((p.delta.bind (·.patches)).getD []) with
+      | ok d =>
+        simp only [hc] at h
+        cases h
+        simp only [Option.some.injEq] at hdoc
+        subst hdoc
+        exact ⟨by simpa using h1, by simpa using h2, rfl, rfl⟩
+      | err => simp only [hc] at h; cases h; simp at hdoc
+      | blowup => simp only [hc] at h; cases h
 
 /-- a transformation result exposes the metadata it was built with -/
 theorem transform_metadata (o : TransformOpts) (rm : RM) (info : Json) (pub unpub : List OpRef) (r : Json)
@@ -92,7 +122,9 @@ theorem resolve_reports (ns did : String) (r : Json) (h : Did.resolve H orc ns d
             transactionNumber := 0, protocolVersion := defaultCfg.genesisTime, canonicalReference := "", equivalentReferences := none } {} = .ok rm ∧
         method.get? "recoveryCommitment" = (if rm.recoveryCommitment = "" then none else some (.str rm.recoveryCommitment)) ∧
         method.get? "updateCommitment" = (if rm.updateCommitment = "" then none else some (.str rm.updateCommitment)) ∧
-        method.get? "anchorOrigin" = rm.anchorOrigin) := by
+        method.get? "anchorOrigin" = rm.anchorOrigin ∧
+        (∃ kv rest, rm.doc = some (.obj (kv :: rest))) ∧
+        Transformer.transform defaultOpts rm (unpublishedInfo ns op.uniqueSuffix initial) [] [] = some r) := by
   obtain ⟨hpre, did', initial, req, size, op, hp, hparse, hlast, hlen⟩ := C17.resolve_shape H orc ns did r h
   have hsuffix : String.ofList ((splitColon did'.toList).getLast?.getD []) = op.uniqueSuffix := by
     rw [hlast]; simp
@@ -119,7 +151,8 @@ theorem resolve_reports (ns did : String) (r : Json) (h : Did.resolve H orc ns d
           obtain ⟨md, hmd, hget⟩ := transform_metadata _ _ _ _ _ _ h
           obtain ⟨published, method, hpub, hmeth, hmp, hrc, huc, hao, _⟩ := C18.metadata_method_fields _ _ _ _ _ _ hmd
           obtain ⟨_, _, _, _, heq, _⟩ := C18.metadata_fields _ _ _ _ _ _ hmd
-          refine ⟨did', initial, req, size, op, md, method, hp, hparse, hget, hmeth, ?_, ?_, rm, happ, hrc, huc, hao⟩
+          refine ⟨did', initial, req, size, op, md, method, hp, hparse, hget, hmeth, ?_, ?_, rm, happ, hrc, huc, hao,
+            ⟨kv, rest, hdoc⟩, h⟩
           · have : published = false := by
               have h1 : (unpublishedInfo ns op.uniqueSuffix initial).get? "published" = some (.bool false) := by
                 simp [unpublishedInfo, Json.get?, Json.lookup]
@@ -168,7 +201,7 @@ theorem resolve_reports_recovery_commitment (ns did : String) (r : Json) (h : Di
       r.get? "didDocumentMetadata" = some md ∧ md.get? "method" = some method ∧
       method.get? "recoveryCommitment" = some (.str sd.recoveryCommitment) ∧
       method.get? "anchorOrigin" = sd.anchorOrigin := by
-  obtain ⟨did', initial, req, size, op, md, method, hp, _, hget, hmeth, _, _, rm, happ, hrc, _, hao⟩ := resolve_reports H orc ns did r h
+  obtain ⟨did', initial, req, size, op, md, method, hp, _, hget, hmeth, _, _, rm, happ, hrc, _, hao, _, _⟩ := resolve_reports H orc ns did r h
   obtain ⟨c, hc, hvs, h1, h2, _⟩ := apply_create_carries H orc defaultCfg _ req rm rfl rfl happ
   cases hsd : c.suffixData with
   | none => simp [hsd, Parser.validateSuffixData] at hvs
@@ -180,5 +213,75 @@ theorem resolve_reports_recovery_commitment (ns did : String) (r : Json) (h : Di
     simp only [hne, if_false] at hrc
     rw [h2] at hao
     exact ⟨did', initial, req, size, c, sd, md, method, hp, hc, hsd, hget, hmeth, hrc, hao⟩
+
+/-- applying a create to the empty state and getting a non-empty document: the document is the
+    composer's result for the patches of the delta the request decodes to -/
+theorem apply_create_document (cfg : Protocol) (op : AnchoredOp) (req : Json) (rm : RM) (kv : String × Json) (rest : List (String × Json))
+    (hty : op.type = "create") (hreq : op.request = some req)
+    (h : Applier.apply H cfg orc op {} = .ok rm) (hdoc : rm.doc = some (.obj (kv :: rest))) :
+    ∃ c d, Parser.decodeCreate req = some c ∧ c.delta = some d ∧ Parser.validateDelta cfg orc (some d) = true ∧
+      Hashing.isValidModelMultihash H d.toJson (c.suffixData.getD default).deltaHash = true ∧
+      Composer.applyPatches (.obj []) (d.patches.getD []) = .ok (.obj (kv :: rest)) ∧
+      rm.updateCommitment = d.updateCommitment := by
+  unfold Applier.apply at h
+  simp only [hty, OpType.ofString?] at h
+  split at h
+  · cases h
+  · cases hp : Applier.parseAs H cfg orc .create op with
+    | none => simp [hp] at h
+    | some p =>
+      simp only [hp] at h
+      obtain ⟨h1, h2, h3, h4⟩ := applyCreate_nonempty H orc cfg op {} rm p kv rest h hdoc
+      simp only [Applier.parseAs, hreq] at hp
+      obtain ⟨c, alg, suffix, hc, _, _, _, _, rfl⟩ := Parser.parseCreate_inv H cfg orc req true p hp
+      simp only at h1 h2 h3 h4
+      cases hd : c.delta with
+      | none => simp [hd, Parser.validateDelta] at h2
+      | some d =>
+        simp only [hd, Option.bind_some, Option.getD_some, deltaJson] at h1 h2 h3 h4
+        exact ⟨c, d, hc, hd, h2, h1, h3, h4⟩
+
+theorem validateDelta_commitment (cfg : Protocol) (d : Delta) (h : Parser.validateDelta cfg orc (some d) = true) :
+    Parser.multihashOK cfg d.updateCommitment = true := by
+  simp only [Parser.validateDelta] at h
+  split at h
+  · cases h
+  · cases h
+  · simp only [Bool.and_eq_true] at h
+    exact h.1.2
+
+/-- **a long-form DID resolves to what was created**: the result is the transformation of a state
+    whose document is the composer's result for the patches of the delta embedded in the DID on the
+    empty document; that delta is valid and hashes to the delta hash of the embedded suffix data;
+    and the method metadata reports the embedded request's update and recovery commitments -/
+theorem resolve_is_what_was_created (ns did : String) (r : Json) (h : Did.resolve H orc ns did = some r) :
+    ∃ did' initial req size c sd d doc rm md method suffix,
+      parseDID ns did = .long did' initial req size ∧ Parser.decodeCreate req = some c ∧
+      c.suffixData = some sd ∧ c.delta = some d ∧
+      Hashing.isValidModelMultihash H d.toJson sd.deltaHash = true ∧
+      Composer.applyPatches (.obj []) (d.patches.getD []) = .ok doc ∧ rm.doc = some doc ∧
+      Transformer.transform defaultOpts rm (unpublishedInfo ns suffix initial) [] [] = some r ∧
+      r.get? "didDocumentMetadata" = some md ∧ md.get? "method" = some method ∧
+      method.get? "updateCommitment" = some (.str d.updateCommitment) ∧
+      method.get? "recoveryCommitment" = some (.str sd.recoveryCommitment) := by
+  obtain ⟨did', initial, req, size, op, md, method, hp, _, hget, hmeth, _, _, rm, happ, hrc, huc, _, ⟨kv, rest, hdoc⟩, htr⟩ :=
+    resolve_reports H orc ns did r h
+  obtain ⟨c, d, hc, hd, hvd, hdh, hcomp, hucd⟩ := apply_create_document H orc defaultCfg _ req rm kv rest rfl rfl happ hdoc
+  obtain ⟨c', hc', hvs, h1, _, _⟩ := apply_create_carries H orc defaultCfg _ req rm rfl rfl happ
+  rw [hc] at hc'
+  cases hc'
+  cases hsd : c.suffixData with
+  | none => simp [hsd, Parser.validateSuffixData] at hvs
+  | some sd =>
+    simp only [hsd, Option.getD_some] at h1
+    simp only [hsd, Option.getD_some] at hdh
+    simp only [hsd, Parser.validateSuffixData, Bool.and_eq_true] at hvs
+    have hne := multihashOK_ne_empty defaultCfg _ hvs.1
+    have hne2 := multihashOK_ne_empty defaultCfg _ (validateDelta_commitment orc defaultCfg d hvd)
+    rw [h1] at hrc
+    simp only [hne, if_false] at hrc
+    rw [hucd] at huc
+    simp only [hne2, if_false] at huc
+    exact ⟨did', initial, req, size, c, sd, d, _, rm, md, method, op.uniqueSuffix, hp, hc, hsd, hd, hdh, hcomp, hdoc, htr, hget, hmeth, huc, hrc⟩
 
 end Sidetree.Props.C17R
